@@ -10,6 +10,7 @@
 use crate::c02::*;
 use crate::c13::*;
 use crate::model::*;
+use crate::ms::*;
 use crate::src::Src;
 use common_traits::DoubleType;
 use core::convert::Infallible;
@@ -183,6 +184,104 @@ macro_rules! c09_bodies {
 c09_bodies!(BE, strict_step_be);
 c09_bodies!(LE, strict_step_le);
 
+// ---------------------------------------------------------------- bulk copy near the end of a strict stream
+// The real strict MemWordReader builds (and drops) an io::Error on every read_word, which makes copy_to over it
+// intractable (no verdict in 600 s for 3 words); the end-of-stream behaviour of BufBitReader::copy_to does not
+// depend on which backend reports the end, so this step uses a strict word source of the harness with a
+// zero-sized error.
+
+#[derive(Debug, Clone, Copy, PartialEq, Eq)]
+pub struct Eos;
+impl core::fmt::Display for Eos {
+    fn fmt(&self, f: &mut core::fmt::Formatter<'_>) -> core::fmt::Result {
+        f.write_str("end of stream")
+    }
+}
+impl std::error::Error for Eos {}
+
+/// the first `len` words of `data`, then end of stream
+pub struct StrictArr<W: VW, const K: usize> {
+    pub data: [W; K],
+    pub len: usize,
+    pub pos: usize,
+}
+impl<W: VW, const K: usize> WordRead for StrictArr<W, K> {
+    type Error = Eos;
+    type Word = W;
+    #[inline(always)]
+    fn read_word(&mut self) -> Result<W, Eos> {
+        if self.pos < self.len {
+            let w = self.data[self.pos];
+            self.pos += 1;
+            Ok(w)
+        } else {
+            Err(Eos)
+        }
+    }
+}
+
+macro_rules! c09_copy_bodies {
+    ($e:ty, $step:ident) => {
+        pub fn $step<W: VW + DoubleType, S: Src, const K: usize, const NMAX: usize>(s: &mut S)
+        where
+            Bb<W>: VW,
+            BufBitReader<$e, StrictArr<W, K>>: BitRead<$e, Error = Eos, PeekWord = Bb<W>>,
+        {
+            let data = any_array::<W, S, K>(s);
+            let len = s.usize_in(0, K);
+            let pos = s.usize_in(0, len);
+            let n = s.usize_in(0, 2 * W::NBITS - 1);
+            let buffer = <Bb<W> as VW>::any(s);
+            s.assume(window_clean::<$e, W>(buffer, n));
+            s.assume(pos * W::NBITS >= n);
+            let avail = n + (len - pos) * W::NBITS;
+            let stream_bit = |j: usize| -> bool {
+                if j < n {
+                    let p = if <$e as En>::BE { 2 * W::NBITS - 1 - j } else { j };
+                    (buffer.to_u128() >> p) & 1 == 1
+                } else {
+                    let a = pos * W::NBITS + (j - n);
+                    if a / W::NBITS < len {
+                        img_bit::<$e, W>(&data, a)
+                    } else {
+                        false
+                    }
+                }
+            };
+            let cn = s.usize_in(0, NMAX);
+            let j = s.usize();
+            s.assume(cn == 0 || j < cn);
+            let mut r = BufBitReader::<$e, _>::verif_from_parts(StrictArr::<W, K> { data, len, pos }, buffer, n);
+            let mut ms = MS::<$e, false>::new();
+            let got = match r.copy_to(&mut ms, cn as u64) {
+                Ok(()) => true,
+                Err(e) => {
+                    core::mem::forget(e);
+                    false
+                }
+            };
+            if cn <= avail {
+                assert!(got, "copy_to of bits lying entirely within the data failed (end of stream reported early)");
+                assert_eq!(ms.wlen, cn, "destination received exactly n bits");
+                if cn > 0 {
+                    assert_eq!(ms.bit(j), stream_bit(j), "copied bit differs from the source stream");
+                }
+                let (_b2, n2) = r.verif_parts();
+                let pos2 = r.verif_backend().pos;
+                assert_eq!(pos2 * W::NBITS - n2, pos * W::NBITS - n + cn, "source advanced by exactly n bits");
+            } else {
+                assert!(!got, "copy_to returned Ok although it needs bits beyond the end of a strict stream");
+            }
+            crate::cover!(s, cn > 0 && cn == avail, "copy ending exactly at the end of data");
+            crate::cover!(s, cn > avail, "copy beyond the end");
+            crate::cover!(s, cn > n + W::NBITS && cn <= avail, "copy crossing whole words");
+            core::mem::forget(r);
+        }
+    };
+}
+c09_copy_bodies!(BE, strict_copy_be);
+c09_copy_bodies!(LE, strict_copy_le);
+
 // ---------------------------------------------------------------- unbuffered reader over a strict backend
 
 pub type UbStrict<'a, E> = BitReader<E, MemWordReader<u64, &'a [u64], false>>;
@@ -301,6 +400,22 @@ c09_ub_bodies!(BE, ub_strict_step_be);
 c09_ub_bodies!(LE, ub_strict_step_le);
 
 crate::harnesses! {
+    #[kani::unwind(14)]
+    c09_copy_u8_be (thorough, "BufBitReader<BE, strict word source of the harness over u8>, K=12", "data truncated after any number of words 0..=K, any Inv_r state; copy_to(n <= 80) into a model stream: Ok with exactly the stream's bits and an advance of n iff n bits lie within the data, an error otherwise") => strict_copy_be::<u8, _, 12, 80>;
+    #[kani::unwind(10)]
+    c09_copy_u16_be (quick, "BufBitReader<BE, strict word source of the harness over u16>, K=8", "data truncated after any number of words 0..=K, any Inv_r state; copy_to(n <= 96) into a model stream: Ok with exactly the stream's bits and an advance of n iff n bits lie within the data, an error otherwise") => strict_copy_be::<u16, _, 8, 96>;
+    #[kani::unwind(7)]
+    c09_copy_u32_be (thorough, "BufBitReader<BE, strict word source of the harness over u32>, K=5", "data truncated after any number of words 0..=K, any Inv_r state; copy_to(n <= 128) into a model stream: Ok with exactly the stream's bits and an advance of n iff n bits lie within the data, an error otherwise") => strict_copy_be::<u32, _, 5, 128>;
+    #[kani::unwind(6)]
+    c09_copy_u64_be (thorough, "BufBitReader<BE, strict word source of the harness over u64>, K=4", "data truncated after any number of words 0..=K, any Inv_r state; copy_to(n <= 192) into a model stream: Ok with exactly the stream's bits and an advance of n iff n bits lie within the data, an error otherwise") => strict_copy_be::<u64, _, 4, 192>;
+    #[kani::unwind(14)]
+    c09_copy_u8_le (thorough, "BufBitReader<LE, strict word source of the harness over u8>, K=12", "data truncated after any number of words 0..=K, any Inv_r state; copy_to(n <= 80) into a model stream: Ok with exactly the stream's bits and an advance of n iff n bits lie within the data, an error otherwise") => strict_copy_le::<u8, _, 12, 80>;
+    #[kani::unwind(10)]
+    c09_copy_u16_le (thorough, "BufBitReader<LE, strict word source of the harness over u16>, K=8", "data truncated after any number of words 0..=K, any Inv_r state; copy_to(n <= 96) into a model stream: Ok with exactly the stream's bits and an advance of n iff n bits lie within the data, an error otherwise") => strict_copy_le::<u16, _, 8, 96>;
+    #[kani::unwind(7)]
+    c09_copy_u32_le (quick, "BufBitReader<LE, strict word source of the harness over u32>, K=5", "data truncated after any number of words 0..=K, any Inv_r state; copy_to(n <= 128) into a model stream: Ok with exactly the stream's bits and an advance of n iff n bits lie within the data, an error otherwise") => strict_copy_le::<u32, _, 5, 128>;
+    #[kani::unwind(6)]
+    c09_copy_u64_le (quick, "BufBitReader<LE, strict word source of the harness over u64>, K=4", "data truncated after any number of words 0..=K, any Inv_r state; copy_to(n <= 192) into a model stream: Ok with exactly the stream's bits and an advance of n iff n bits lie within the data, an error otherwise") => strict_copy_le::<u64, _, 4, 192>;
     #[kani::stub(alloc::fmt::format, stub_format)]
     #[kani::stub(std::string::ToString::to_string, stub_to_string)]
     #[kani::unwind(14)]
